@@ -199,6 +199,21 @@ fn gen_chunks(rng: &mut Rng, info: &PoolInfo, allow_short: bool) -> Vec<usize> {
     if !allow_short {
         return vec![];
     }
+    if info.len > 14_000 {
+        // Large images: no tiny-chunk styles (a 130 KiB file in 1-byte reads costs more than it
+        // tells); the boundaries that matter here are those of plausible internal buffers.
+        return match rng.below(6) {
+            0 => vec![],
+            1 => vec![*rng.pick(&[4096usize, 8192, 16384, 32768, 65536])],
+            2 => vec![rng.urange(500, 5000)],
+            3 => {
+                let off = aimed_offset(rng, info).max(1);
+                vec![off, 65536]
+            }
+            4 => vec![*rng.pick(&[16384usize, 32768, 65536]) - rng.urange(0, 3), 7, 65536],
+            _ => vec![rng.urange(1, 3), rng.urange(1000, 20000)],
+        };
+    }
     match rng.below(8) {
         0 => vec![],
         1 => vec![1],
